@@ -15,6 +15,18 @@ def table():
     return _TABLE
 
 
+def modelled_types():
+    return {t for t, _ in table()["modelled"]}
+
+
+def unmodelled(names):
+    """type strings used as examples of UNMODELLED resources: a type that has become modelled since (an ordinary upstream change) is
+    dropped from the list instead of being fed to the generic-resource surfaces"""
+    live = modelled_types()
+    out = [n for n in names if n not in live]
+    return out or ["Custom::Thing"]
+
+
 FN_OBJECTS = [{"Ref": "P1"}, {"Fn::Sub": "${AWS::Region}-x"}, {"Fn::GetAtt": ["Res", "Arn"]}, {"Fn::ImportValue": "exp"},
               {"Fn::Join": ["-", ["a", {"Ref": "AWS::AccountId"}]]}, {"Fn::If": ["C1", "a", "b"]}, {"Fn::Select": [0, ["a", "b"]]},
               {"Fn::FindInMap": ["M", "k1", "s"]}, {"Fn::Base64": "x"}, {"Fn::Split": [",", "a,b"]}, {"Fn::GetAZs": ""},
@@ -232,7 +244,7 @@ class Gen:
             elif self.resolvable and fn_ == "Condition" and "Resource" in c["bases"]:
                 out[fn_] = "C1"
             elif hook == "HCheckType":
-                out[fn_] = r.choice(["Custom::Thing", "AWS::SNS::Topic", "AWS::Foo::Bar"])
+                out[fn_] = r.choice(unmodelled(["Custom::Thing", "AWS::SNS::Topic", "AWS::Foo::Bar"]))
             else:
                 out[fn_] = self.value(ty, path + (fn_,), d - 1)
         return out
@@ -241,7 +253,7 @@ class Gen:
         r = self.r
         t = table()
         if type_string is None:
-            type_string = r.choice([ty for ty, _ in t["modelled"]] + ["Custom::Thing", "AWS::SNS::Topic"])
+            type_string = r.choice([ty for ty, _ in t["modelled"]] + unmodelled(["Custom::Thing", "AWS::SNS::Topic"]))
         cls = dict(t["modelled"]).get(type_string)
         if cls is None:
             self.nodes.append((path, "GenericResource"))
